@@ -9,8 +9,14 @@ import (
 	"path/filepath"
 	"sort"
 	"strings"
+	"sync"
+	"sync/atomic"
+	"time"
 
 	"github.com/bitcoin-sv/block-headers-service/config"
+	"github.com/bitcoin-sv/block-headers-service/domains"
+	"github.com/bitcoin-sv/block-headers-service/repository"
+	"github.com/bitcoin-sv/block-headers-service/service"
 )
 
 func init() { register("C10", runC10) }
@@ -26,6 +32,13 @@ func init() { register("C10", runC10) }
 //	                  thorough tier and for a share of quick cases - prefix "Wr" forces the real client -
 //	                  otherwise the token check the connect handler performs, Services.Tokens.GetToken)
 //	X                 restart: close the database, reopen the same SQLite file, rebuild services + engine
+//	Cf:<cred>:<name>  like C, but the COMMIT of the INSERT fails (SQLite commit hook turns it into a ROLLBACK)
+//	Rf:<cred>:<name>  like R, but the COMMIT of the DELETE fails
+//	RACE:<name>       (after a restart, so that nothing about the value is remembered in memory)
+//	                  an authenticate (GET /api/v1/access) of the value is started in a goroutine and held right after
+//	                  the token repository's lookup returned (decorated repository.Tokens); DELETE /api/v1/access/<value>
+//	                  with the admin token runs to completion; the authenticate is released and its answer recorded.
+//	                  Every later authenticate of the value (the vector that follows, later ops) must be refused.
 //
 // <name>/<cred>: "adm" is the configured admin token; any other name is the latest value bound to
 // it by a successful C op, or (unbound) a fixed never-issued value derived from the name; "<name>^" and
@@ -33,7 +46,8 @@ func init() { register("C10", runC10) }
 //
 // obs   : per operation "<result>/<validity vector>" joined by ' ' where result is
 //
-//	c:ok | c:401 | r:ok | r:401 | h:A|U|N | w:ok|no | x
+//	c:ok | c:401 | c:fail | r:ok | r:401 | r:fail | h:A|U|N | w:ok|no | x | race:A|U|N
+//	(c:fail / r:fail = any answer other than 200 / 401, i.e. the storage error was reported)
 //
 // and the vector lists, for every name mentioned anywhere in the case (sorted) and for adm, the role
 // the current value of the name authenticates with on GET /api/v1/access: A(dmin) U(ser) N(one).
@@ -47,6 +61,39 @@ type c10State struct {
 	seen  map[string]bool // every token value ever returned in this process
 	admin string
 	real  bool
+
+	failCommit int32 // != 0: every COMMIT on the hooked connections is refused
+	mu         sync.Mutex
+	pauseTok   string        // armed: the next lookup of this value is held after it returned
+	reached    chan struct{} // signalled by the held lookup
+	release    chan struct{} // closed to let it go on
+}
+
+// c10TokRepo decorates repository.Tokens: a scheduling point right after the lookup returned.
+type c10TokRepo struct {
+	inner repository.Tokens
+	st    *c10State
+}
+
+func (r *c10TokRepo) AddTokenToDatabase(t *domains.Token) error { return r.inner.AddTokenToDatabase(t) }
+func (r *c10TokRepo) DeleteToken(t string) error                { return r.inner.DeleteToken(t) }
+func (r *c10TokRepo) GetTokenByValue(tok string) (*domains.Token, error) {
+	t, err := r.inner.GetTokenByValue(tok)
+	r.st.mu.Lock()
+	var rel chan struct{}
+	if r.st.pauseTok != "" && r.st.pauseTok == tok {
+		r.st.pauseTok = ""
+		rel = r.st.release
+		close(r.st.reached)
+	}
+	r.st.mu.Unlock()
+	if rel != nil {
+		select {
+		case <-rel:
+		case <-time.After(10 * time.Second):
+		}
+	}
+	return t, err
 }
 
 func c10Unknown(name string) string {
@@ -143,6 +190,14 @@ func (st *c10State) open(dir string) error {
 	if err != nil {
 		return err
 	}
+	// scheduling point in the token repository; the token service (and below, the engine and the websocket
+	// server that hold it) is rebuilt around the decorated repository exactly as service.NewServices builds it
+	s.Repo.Tokens = &c10TokRepo{inner: s.Repo.Tokens, st: st}
+	s.Services.Tokens = service.NewTokenService(s.Repo, s.Cfg.HTTP.AuthToken)
+	if err := s.HookCommits(2, func() int { return int(atomic.LoadInt32(&st.failCommit)) }); err != nil {
+		s.Close()
+		return err
+	}
 	fs, err := NewFullStack(s, FullOpts{Websocket: true, Listen: st.real})
 	if err != nil {
 		s.Close()
@@ -156,12 +211,19 @@ func (st *c10State) open(dir string) error {
 func (st *c10State) op(o string, dir string) string {
 	p := strings.Split(o, ":")
 	switch {
-	case p[0] == "C" && len(p) == 3:
+	case (p[0] == "C" || p[0] == "Cf") && len(p) == 3:
+		if p[0] == "Cf" {
+			atomic.StoreInt32(&st.failCommit, 1)
+		}
 		code, body := st.do("POST", "/api/v1/access", st.resolve(p[1]))
+		atomic.StoreInt32(&st.failCommit, 0)
 		if code == 401 {
 			return "c:401"
 		}
 		if code != 200 {
+			if p[0] == "Cf" && code >= 400 && code < 600 {
+				return "c:fail"
+			}
 			return fmt.Sprintf("c:E%d", code)
 		}
 		var t struct {
@@ -180,15 +242,59 @@ func (st *c10State) op(o string, dir string) string {
 		st.seen[t.Token] = true
 		st.bind[p[2]] = t.Token
 		return "c:ok"
-	case p[0] == "R" && len(p) == 3:
+	case (p[0] == "R" || p[0] == "Rf") && len(p) == 3:
+		if p[0] == "Rf" {
+			atomic.StoreInt32(&st.failCommit, 1)
+		}
 		code, _ := st.do("DELETE", "/api/v1/access/"+st.resolve(p[2]), st.resolve(p[1]))
-		switch code {
-		case 200:
+		atomic.StoreInt32(&st.failCommit, 0)
+		switch {
+		case code == 200:
 			return "r:ok"
-		case 401:
+		case code == 401:
 			return "r:401"
+		case p[0] == "Rf" && code >= 400 && code < 600:
+			return "r:fail"
 		}
 		return fmt.Sprintf("r:E%d", code)
+	case p[0] == "RACE" && len(p) == 2:
+		tok := st.resolve(p[1])
+		// cold start: the services are rebuilt first (a restart, identity on the table), so that the in-flight
+		// authenticate really performs its lookup (nothing the process may have remembered about the value
+		// - the validity vector authenticates every value after every op - can answer instead)
+		st.fs.Shutdown()
+		if err := st.open(dir); err != nil {
+			return "x:ERR " + strings.ReplaceAll(err.Error(), "\t", " ")
+		}
+		st.mu.Lock()
+		st.pauseTok, st.reached, st.release = tok, make(chan struct{}), make(chan struct{})
+		reached, release := st.reached, st.release
+		st.mu.Unlock()
+		done := make(chan string, 1)
+		go func() { done <- st.role(tok) }()
+		inflight := ""
+		select {
+		case <-reached: // held after its lookup returned
+		case inflight = <-done: // answered without a lookup (admin token) - nothing to hold
+		case <-time.After(5 * time.Second):
+			inflight = "TIMEOUT"
+		}
+		code, _ := st.do("DELETE", "/api/v1/access/"+tok, st.admin)
+		st.mu.Lock()
+		st.pauseTok = ""
+		st.mu.Unlock()
+		close(release)
+		if inflight == "" {
+			select {
+			case inflight = <-done:
+			case <-time.After(5 * time.Second):
+				inflight = "TIMEOUT"
+			}
+		}
+		if code != 200 {
+			return fmt.Sprintf("race:%s+r%d", inflight, code)
+		}
+		return "race:" + inflight
 	case p[0] == "H" && len(p) == 2:
 		tok := st.resolve(p[1])
 		r := st.role(tok)
@@ -325,7 +431,7 @@ func c10Gen(c *Ctx, maxLen int) string {
 	for i := 0; i < n; i++ {
 		r := c.Rng.Intn(100)
 		switch {
-		case r < 20 && len(unbound) > 0:
+		case r < 18 && len(unbound) > 0:
 			k := c.Rng.Intn(len(unbound))
 			nm := unbound[k]
 			cr := cred()
@@ -334,7 +440,25 @@ func c10Gen(c *Ctx, maxLen int) string {
 				unbound = append(unbound[:k], unbound[k+1:]...)
 				created = append(created, nm)
 			}
-		case r < 42:
+		case r < 22:
+			nm := "g"
+			if len(unbound) > 0 {
+				nm = pick(unbound)
+			}
+			ops = append(ops, "Cf:"+cred()+":"+nm)
+		case r < 27:
+			ops = append(ops, "Rf:"+cred()+":"+anyName())
+		case r < 33:
+			nm := anyName()
+			ops = append(ops, "RACE:"+nm)
+			for k, x := range created {
+				if x == nm {
+					created = append(created[:k], created[k+1:]...)
+					revoked = append(revoked, nm)
+					break
+				}
+			}
+		case r < 50:
 			nm := anyName()
 			cr := cred()
 			ops = append(ops, "R:"+cr+":"+nm)
@@ -347,9 +471,9 @@ func c10Gen(c *Ctx, maxLen int) string {
 					}
 				}
 			}
-		case r < 68:
+		case r < 72:
 			ops = append(ops, "H:"+anyName())
-		case r < 88:
+		case r < 89:
 			ops = append(ops, "W:"+anyName())
 		default:
 			ops = append(ops, "X")
